@@ -6,7 +6,6 @@ import (
 	"math"
 	"time"
 
-	"gopkg.in/typ.v4/avl"
 	"verif/lib/avlh"
 	"verif/lib/ev"
 	"verif/lib/seqmc"
@@ -24,12 +23,18 @@ func main() {
 	cfgs := []cfg{
 		{"distinct", avlh.Params{U: ev.Pick(r, 9, 12), N: ev.Pick(r, 9, 12), Distinct: true, Balance: true}},
 		{"dups", avlh.Params{U: 3, N: ev.Pick(r, 6, 8), Balance: true}},
+		{"distinct-struct-difference-comparator", avlh.Params{U: ev.Pick(r, 7, 9), N: ev.Pick(r, 7, 9), Distinct: true, Balance: true, Struct: true}},
 	}
 	states, trans, depth := 0, 0, 0
 	var parts []string
 	for _, c := range cfgs {
 		c := c
-		res := seqmc.Explore(r, seqmc.Config{Name: c.name, GoTest: avlh.GoTest(c.p, false), New: func() seqmc.Sys { return avlh.NewInt(c.p) }})
+		res := seqmc.Explore(r, seqmc.Config{Name: c.name, GoTest: avlh.GoTest(c.p, c.p.Struct), New: func() seqmc.Sys {
+			if c.p.Struct {
+				return avlh.NewStruct(c.p)
+			}
+			return avlh.NewInt(c.p)
+		}})
 		states += res.States
 		trans += res.Transitions
 		if res.MaxDepth > depth {
@@ -42,43 +47,50 @@ func main() {
 	}
 	// Parametrised families at sizes the BFS cannot reach: every n up to nmax,
 	// three insertion orders, then three deletion orders, balance checked after every call.
-	nmax := ev.Pick(r, 300, 1100)
-	fam := 0
-	for _, ins := range []string{"asc", "desc", "inside-out"} {
-		for _, del := range []string{"asc", "desc", "inside-out"} {
-			if r.Violations() > 0 {
-				break
+	// every family runs twice: on avl.NewOrdered and on avl.New with a comparator that answers with
+	// differences (any negative / positive number, not only -1 / +1)
+	for _, kind := range []string{"NewOrdered", "difference-comparator"} {
+		if kind != "NewOrdered" {
+			avlh.NewTree = avlh.Magnitude
+		}
+		nmax := ev.Pick(r, 300, 1100)
+		fam := 0
+		for _, ins := range []string{"asc", "desc", "inside-out"} {
+			for _, del := range []string{"asc", "desc", "inside-out"} {
+				if r.Violations() > 0 {
+					break
+				}
+				if msg := family(ins, del, nmax); msg != "" {
+					r.Report(ev.Violation{Sig: "family|" + classify(msg), Msg: "(" + kind + " tree) " + msg, Replay: map[string]any{"family": ins + "/" + del, "nmax": nmax}})
+				}
+				fam++
 			}
-			if msg := family(ins, del, nmax); msg != "" {
-				r.Report(ev.Violation{Sig: "family|" + classify(msg), Msg: msg, Replay: map[string]any{"family": ins + "/" + del, "nmax": nmax}})
+		}
+		r.Set("families", fam)
+		r.Set("family_nmax", nmax)
+		// build-then-remove families: every size up to the bound, 7 build orders, every single
+		// removal (and every ordered pair of removals for the smaller sizes), checked after each
+		{
+			var tr func(any)
+			if ev.Tracing() {
+				tr = ev.Trace
 			}
-			fam++
+			cases, msg, rp := avlh.RemovalFamilies(ev.Pick(r, 96, 300), ev.Pick(r, 30, 60), true, tr)
+			if msg != "" {
+				r.Report(ev.Violation{Sig: "family|Balance", Msg: "(" + kind + " tree) " + msg, Replay: rp})
+			}
+			r.Set("removal_family_cases", cases)
 		}
-	}
-	r.Set("families", fam)
-	r.Set("family_nmax", nmax)
-	// build-then-remove families: every size up to the bound, 7 build orders, every single
-	// removal (and every ordered pair of removals for the smaller sizes), checked after each
-	{
-		var tr func(any)
-		if ev.Tracing() {
-			tr = ev.Trace
-		}
-		cases, msg, rp := avlh.RemovalFamilies(ev.Pick(r, 96, 300), ev.Pick(r, 30, 60), true, tr)
-		if msg != "" {
-			r.Report(ev.Violation{Sig: "family|Balance", Msg: msg, Replay: rp})
-		}
-		r.Set("removal_family_cases", cases)
-	}
-	// long-history churn: one tree, tens of thousands of operations (behaviour keyed to a count of
-	// operations), with and without duplicates
-	for _, dups := range []bool{false, true} {
-		var tr func(any)
-		if ev.Tracing() {
-			tr = ev.Trace
-		}
-		if msg, rp := avlh.Churn(ev.Pick(r, 60000, 600000), 97, dups, true, tr); msg != "" {
-			r.Report(ev.Violation{Sig: "family|churn", Msg: msg, Replay: rp})
+		// long-history churn: one tree, tens of thousands of operations (behaviour keyed to a count of
+		// operations), with and without duplicates
+		for _, dups := range []bool{false, true} {
+			var tr func(any)
+			if ev.Tracing() {
+				tr = ev.Trace
+			}
+			if msg, rp := avlh.Churn(ev.Pick(r, 60000, 600000), 97, dups, true, tr); msg != "" {
+				r.Report(ev.Violation{Sig: "family|churn", Msg: "(" + kind + " tree) " + msg, Replay: rp})
+			}
 		}
 	}
 	r.Set("churn_family_operations", 2*ev.Pick(r, 60000, 600000))
@@ -128,7 +140,7 @@ func order(kind string, n int) []int {
 // family inserts n values in one order and deletes them in another, checking
 // balance from the pre/in-order traversals after every call (values distinct).
 func family(ins, del string, n int) string {
-	t := avl.NewOrdered[int]()
+	t := avlh.NewTree()
 	check := func(what string) string {
 		pre, in := t.SlicePreOrder(), t.SliceInOrder()
 		pos := make(map[int]int, len(in))
